@@ -68,6 +68,19 @@ claim("C04", "other",
       "un-doubling the quote (specs/lexical.json). Derive-generated fast paths are C19.",
       "structural extraction of Iden::quoted + TIR dataflow over quote-delimited regions", "DESIGN.md section 4, C04")
 
+claim("C05", "other",
+      "The parenthesisation decision is tabulated completely: for every backend, every outer operator the backend renders "
+      "(plain, Postgres and SQLite extension operators, a custom operator), both operand sides, every inner operator and every "
+      "other SimpleExpr kind, plus NOT and the two BETWEEN bounds, the real binary_expr / Unary code is interpreted over the "
+      "abstract operands (~2800 cells). Every cell that drops the parentheses is justified by the dialect's precedence level "
+      "and associativity, by the BETWEEN bound grammar, or by the operand being a single token / self-delimiting in the "
+      "backend's template IR. Arbitrary nesting reduces to these cells because the decision only looks at the immediate inner "
+      "operator.",
+      "Oracle = specs/precedence.json (written from the three manuals, server defaults). Does not decide evaluation on an "
+      "engine, only that the printed text re-parses to the tree that was built. Implicit operator contexts outside "
+      "binary_expr (e.g. MySQL's `expr IS NULL` ordering emulation) are not covered.",
+      "exhaustive decision table by abstract interpretation vs precedence oracle", "DESIGN.md section 4, C05")
+
 claim("C06", "other",
       "Every rewriting action of the condition builder (unwrap a single-member group, concatenate member lists, add as member, "
       "wrap) is located on every control path and its path condition is tabulated over the complete abstract domain of groups "
@@ -78,6 +91,26 @@ claim("C06", "other",
       "The identities themselves are argued in DESIGN.md, not machine-checked; printing of the produced expression tree is "
       "C05. Guards outside the interpreter's fragment fail closed.",
       "path enumeration + guard tabulation by abstract interpretation over a finite domain", "DESIGN.md section 4, C06")
+
+claim("C07", "other",
+      "Decides structural necessary conditions of 'a built statement does what the builder calls say' for the SQLite query "
+      "renderers, for every statement the renderers can be given: every field of every query statement struct reaches the "
+      "output guarded only by its own emptiness (or is a reviewed SQLite exception), no clause list is rendered partially or "
+      "out of order, separators are written iff an element is, parentheses balance on every consistent path, adjacent "
+      "emissions cannot fuse into one token, and every keyword table (joins, set operations, ORDER/NULLS, frames, functions, "
+      "operators) agrees with the spellings SQLite accepts.",
+      "NOT decided: that a real SQLite accepts the statement beyond these conditions and returns the same rows / leaves the "
+      "same table contents (needs execution). The keyword and exception tables under specs/ are the trusted base.",
+      "field-consumption, separator, parenthesis and adjacency rules over the linked template IR + keyword tables by abstract interpretation", "DESIGN.md section 4, C07")
+
+claim("C08", "other",
+      "Same engine as C07 for the MySQL and PostgreSQL query renderers (defaults + overrides resolved per backend): field "
+      "consumption with reviewed dialect exceptions (RETURNING, conflict targets, SEARCH/CYCLE, index hints, TABLESAMPLE ..), "
+      "separator discipline, parenthesis balance, token adjacency, forward iteration, and the per-backend keyword / function / "
+      "operator tables against the dialects' accepted spellings.",
+      "NOT decided: acceptance by a full MySQL / PostgreSQL parser. Known finding recorded: MySQL multi-table UPDATE renders "
+      "only the first FROM table.",
+      "field-consumption, separator, parenthesis and adjacency rules over the linked template IR + keyword tables", "DESIGN.md section 4, C08")
 
 claim("C10", "other",
       "MIR dominator analysis of InsertStatement::values/select_from: every write to the statement (in particular every "
@@ -108,6 +141,23 @@ claim("C12", "other",
       "Trusts the reviewed foreign conversions (uuid adapters, chrono fixed-offset rebuild) and Value equality (C18) used by "
       "Option<T>::try_from; an impl of a shape the extractor does not recognise fails closed.",
       "variant-pairing and dataflow census over rustc HIR (exhaustive over impls)", "DESIGN.md section 4, C12")
+
+claim("C13", "other",
+      "SQLite schema renderers: the complete ColumnType -> declared type table is extracted by abstract interpretation and "
+      "SQLite's documented affinity algorithm is applied to every emitted name (intended affinity per variant; AUTOINCREMENT "
+      "columns declared exactly INTEGER; unsupported types refused); field consumption of the schema statement structs with "
+      "reviewed SQLite exceptions; separators, parentheses, adjacency, forward iteration.",
+      "NOT decided: that the engine accepts the statement and that its catalogue then reports the declared schema (needs "
+      "execution and introspection). Trusted: specs/sqlite_affinity.json, the affinity algorithm as documented.",
+      "type table by abstract interpretation + SQLite affinity algorithm; structural rules over the linked template IR", "DESIGN.md section 4, C13")
+
+claim("C14", "other",
+      "MySQL and PostgreSQL schema renderers: every ColumnType variant is declared with a type the dialect defines, parameters "
+      "forwarded in order, UNSIGNED exactly on the unsigned variants, unsupported types refused; separator discipline of every "
+      "separated list (the hand-managed commas of Postgres ALTER COLUMN are tabulated over all ColumnSpec variants x flag); "
+      "parentheses, adjacency; field consumption per backend with reviewed exceptions.",
+      "NOT decided: acceptance by the dialects' DDL parsers. Trusted: specs/types.json and the reviewed exception tables.",
+      "type tables and separator tables by abstract interpretation; structural rules over the linked template IR", "DESIGN.md section 4, C14")
 
 claim("C15", "other",
       "Proof-style over a finite obligation list: each of the 12 take(&mut self) functions returns a struct literal whose every "
